@@ -187,3 +187,26 @@ fn c12_record_type_helpers() {
 	kani::cover!(r.is_err(), "invalid type");
 	core::mem::forget(r);
 }
+
+/// C12-O5: a fresh LZ4 segment starts with a SetCompressionType record: after writing it the writer's
+/// block_offset equals the number of bytes in the file (8), so every later record of the session is
+/// framed in phase with the block grid; the record itself has the reader-checked CRC, length 1 and type 9.
+#[kani::proof]
+#[kani::unwind(14)]
+#[kani::stub(crc32fast::Hasher::internal_new_specialized, stub_crc_none)]
+fn c12_compression_type_record_is_counted() {
+	let file = unsafe { std::fs::File::from_raw_fd(1000) };
+	let dest = BufferedFileWriter::new(file, BLOCK_SIZE);
+	let mut w = Writer::new(dest, true, CompressionType::Lz4, 0);
+	let r = w.add_compression_type_record();
+	let ok = r.is_ok();
+	core::mem::forget(r);
+	assert!(ok, "add_compression_type_record failed");
+	let out: &[u8] = w.dest.writer.buffer();
+	assert!(out.len() == HEADER_SIZE + 1, "compression-type record has an unexpected size");
+	assert!(out[6] == RecordType::SetCompressionType as u8 && out[4] == 0 && out[5] == 1 && out[7] == CompressionType::Lz4 as u8, "compression-type record malformed");
+	assert!(be32(&out[0..4]) == calculate_crc32(&[out[6]], &out[7..8]), "compression-type record checksum differs from the reader's");
+	assert!(w.block_offset == out.len(), "writer's block_offset does not count the compression-type record (later records are framed out of phase)");
+	kani::cover!(w.block_offset == 8, "eight bytes written");
+	core::mem::forget(w);
+}
